@@ -25,7 +25,9 @@ RULE = (
     'returned by a registered function; a !condition that refers to another node, with either node assigned last, '
     'in the same text or in a second parse on top of the returned environment. Later rounds: !format on string '
     'arrays (refusal direction only) and on multi-line values; options given in a custom unit; || next to && '
-    'without parentheses. Distinct = distinct rendered text.'
+    'without parentheses. Rounds 7-8: zero as option, value and threshold; constraints written below a '
+    'modification; integer nodes with options in a custom unit; the same condition text on two nodes; a refusal '
+    'has to come from parse(). Distinct = distinct rendered text.'
 )
 ASSUMPTIONS = [
     "values stay in [0.1, 1e4] (plus a few of 1e-7..1e-10) and are never inside [0.3,3]x the library's 1e-6 relative comparison tolerance of a threshold",
